@@ -87,7 +87,12 @@ func (p *parser) advance() *token.Token {
 // returns the current token without advancing
 func (p *parser) peek() *token.Token {
 	if p.cur >= len(p.tokens) {
-		return &token.Token{Type: token.EOF}
+		eof := &token.Token{Type: token.EOF}
+		if len(p.tokens) > 0 { // position the synthetic EOF directly behind the last token
+			end := p.tokens[len(p.tokens)-1].Range.End
+			eof.Range = token.Range{Start: end, End: end}
+		}
+		return eof
 	}
 	return &p.tokens[p.cur]
 }
